@@ -32,7 +32,23 @@ def _rule_compact_support(verdict, scn):
     return d.get("family") in ("pulse", "band") and int(d.get("solver_steps") or 0) >= 1
 
 
+def _rule_backward_conditioning(verdict, scn):
+    """F error over the bound on intervals that run BACKWARDS in time over a large strain:
+    un-straining is a strongly contracting map, the solver's absolute tolerance is set from
+    the (large) starting F, and the error relative to the (small) result exceeds the bound.
+    Matched only for a reversed call of strain > 3 (per_call / bulk / det) or a history
+    containing reversed calls with accumulated strain > 6 (cumulative / split_vs_whole), and
+    only when the solver ran; reversed calls of small strain are judged in full."""
+    d = verdict.get("detail") or {}
+    if int(d.get("solver_steps") or 0) < 1:
+        return False
+    if verdict["clause"] in ("per_call", "bulk", "det"):
+        return bool(d.get("reversed_interval")) and float(d.get("strain") or 0.0) > 3.0
+    return bool(d.get("reversed_interval_in_history")) and float(d.get("strain") or 0.0) > 6.0
+
+
 RULES = {
+    "backward_conditioning": _rule_backward_conditioning,
     "compact_support_stepped_over": _rule_compact_support,
     "matrix_diffusion_strain": _rule_matrix_diffusion,
 }
